@@ -60,6 +60,8 @@ func c02RpcRun(r *zsim.Run) {
 	clients := 1 + o.Intn(4)
 	done := 0
 	errApp := status.Error(codes.NotFound, "app-error")
+	// one interceptor for the life of the server, shared by every call (as rpc/server.go installs it)
+	timeoutInt := UnaryTimeoutInterceptor(timeout)
 	for c := 0; c < clients; c++ {
 		c := c
 		n := 1 + o.Intn(3)
@@ -107,7 +109,7 @@ func c02RpcRun(r *zsim.Run) {
 					}
 					return fmt.Sprintf("resp-%d-%d", c, i), nil
 				}
-				h := c02Chain(handler, info, UnaryCrashInterceptor, UnaryBreakerInterceptor, UnaryTimeoutInterceptor(timeout))
+				h := c02Chain(handler, info, UnaryCrashInterceptor, UnaryBreakerInterceptor, timeoutInt)
 				if noTimeout {
 					h = c02Chain(handler, info, UnaryCrashInterceptor, UnaryBreakerInterceptor)
 				}
@@ -135,6 +137,12 @@ func c02RpcRun(r *zsim.Run) {
 				}
 				if t1-t0 > timeout+time.Millisecond {
 					r.Failf("response-late", "the call returned after %v with a timeout of %v", t1-t0, timeout)
+					return
+				}
+				if d < timeout && (cancelAt == 0 || cancelAt > d+time.Millisecond) && t1-t0 > d+time.Millisecond {
+					// nothing in these runs takes time except the handlers' own sleeps, and calls do not wait for
+					// each other: a handler that needs d is answered after d
+					r.Failf("response-withheld", "a handler that takes %v (timeout %v, no cancellation before that) was answered only after %v with code %v", d, timeout, t1-t0, status.Code(err))
 					return
 				}
 				clientGone := cancelled >= 0 && cancelled <= t1
